@@ -16,6 +16,7 @@
 (***************************************************************************)
 EXTENDS MPParamsTable, MC_Decl
 
+CONSTANT Pairs         \* TRUE: also every producer/consumer pairing (fuzzy vs non-fuzzy, every data-producing command)
 CONSTANT AllKinds      \* FALSE: inject only values the parameter table rejects (C12); TRUE: every kind confusion (C13)
 
 \* ---------- declarations
@@ -104,9 +105,12 @@ Wrong(cfg) == IF AllKinds THEN ConfusionCandidates ELSE {w \in WrongCandidates :
 IsRes(cfg) == cfg[1] = "Result" \/ (cfg[1] = "List" /\ cfg[2][1] = "Result")
 ResCfg(cfg) == IF cfg[1] = "Result" THEN cfg ELSE cfg[2]
 Wrap(cfg, v) == IF cfg[1] = "List" THEN <<"list", <<ValidVal(cfg)[2][1], v>>>> ELSE v
+\* every producer / consumer pairing: the consumer's result parameter refers to a command PP of every data-producing kind
+Pairings(d) == UNION {(IF IsRes(Params(d)[k][2]) THEN {<<"pair", Params(d)[k][1], c>> : c \in {c \in DeclNames : OutKind(D(c)) = "data"}} ELSE {}) : k \in 1..Len(Params(d))}
 FaultsOf(d) ==
     {<<"none", "", <<>>>>, <<"unknown", "", <<>>>>, <<"dup", "", <<>>>>, <<"undeclared", "", <<>>>>}
     \cup {<<"missing", pn, <<>>>> : pn \in Required(d)}
+    \cup (IF Pairs THEN Pairings(d) ELSE {})
     \cup UNION {{<<"wrong", Params(d)[k][1], w>> : w \in Wrong(Params(d)[k][2])} : k \in 1..Len(Params(d))}
     \cup UNION {(IF IsRes(Params(d)[k][2]) THEN
                     {<<"wrong", Params(d)[k][1], Wrap(Params(d)[k][2], <<"ref", "Ghost">>)>>}
@@ -125,5 +129,7 @@ Target(cname, all, f) ==
       [] f[1] = "undeclared" -> <<"T", cname, Append(base, <<"Bogus", <<"int", "other">>>>)>>
       [] f[1] = "missing" -> <<"T", cname, SelectSeq(base, LAMBDA a : a[1] # f[2])>>
       [] f[1] = "wrong" -> <<"T", cname, SetArg(base, f[2], f[3])>>
-Build(cname, all, f, pos) == IF pos = "first" THEN <<Target(cname, all, f)>> \o Fixture ELSE Fixture \o <<Target(cname, all, f)>>
+      [] f[1] = "pair" -> <<"T", cname, SetArg(base, f[2], Wrap(Cfg(d, f[2]), <<"ref", "PP">>))>>
+Fix(f) == IF f[1] = "pair" THEN Fixture \o <<Cmd("PP", f[3], FALSE)>> ELSE Fixture
+Build(cname, all, f, pos) == IF pos = "first" THEN <<Target(cname, all, f)>> \o Fix(f) ELSE Fix(f) \o <<Target(cname, all, f)>>
 =============================================================================
